@@ -530,6 +530,13 @@ func suiteDocument(r *Rng, n int, thorough bool, o *Out) {
 			}
 			o.stat("url.with-params")
 		}
+		if r.chance(1, 15) {
+			// a hand-built URL that says nothing at all: with an empty path prefix the
+			// document's self link is the empty string, and it is still written
+			frags, resID, rules, page, label = []string{}, "", nil, nil, ""
+			fields = map[string][]string{}
+			o.stat("url.empty")
+		}
 		mkURL := func() *jsonapi.URL {
 			pg := map[string]any{}
 			for k, v := range page {
